@@ -242,6 +242,31 @@ def job_gen_run(args):
     return r
 
 
+def job_gen_run_any(args):
+    """programs of ANY shape (parallel loops in every position, also the shapes of the known findings K1-K5), test
+    ids, cross re-entrant completions for a quarter of them: run on the implementation and compared with the net
+    layer of the model only - the monitors are not consulted (on these shapes the properties are known to fail)"""
+    seed, opts = args
+    rng = random.Random(seed ^ 0xA11)
+    gen = dict(opts.get("gen", {}))
+    focus = list(gen.get("focus") or [])
+    gen["focus"] = focus + ["ploop"]
+    gen["any_shape"] = True
+    case = sc.gen_case(rng, depth=rng.choice([2, 3, 3]), hist=rng.random() < 0.25, max_ops=opts.get("max_ops", 40), **gen)
+    case["ids"] = "test"
+    case["mutate"] = False
+    case["gen_seed"] = seed
+    case["any_shape"] = True
+    if rng.random() < 0.25 and not case.get("imm_other"):
+        case["imm_other"] = [rng.random() < 0.5 for _ in range(rng.randint(1, 6))]
+    if all(case["imm"]):
+        case["imm"] = [True, False]
+    r = job_run(case)
+    r["viol"] = []
+    r["net_only"] = True
+    return r
+
+
 def job_all_orders(args):
     """small scope, exhaustively: ALL completion orders of one small program (depth-first over the choice among the
     outstanding services at every step, by re-execution), monitors on every run, model comparison on every run"""
@@ -831,7 +856,9 @@ def _run(ctx, cfg, n_cases, pool, res):
                 disagreements.append((r, d))
         # the net layer of the model (generator.py / logic.py / the net callbacks as the code does them): also the
         # cases with cross re-entrant completions, which the structural model does not cover
-        net_cases = [r for r in valid if net_tie.applicable(r["case"])]
+        any_results = pool.map(job_gen_run_any, [(seed * 1000003 + i, opts) for i in range(max(20, n_cases // 4))], chunksize=2)
+        any_valid = [r for r in any_results if r.get("valid") and not any(c.get("exc") == "RecursionError" for c in r["calls"])]
+        net_cases = [r for r in valid if net_tie.applicable(r["case"])] + [r for r in any_valid if net_tie.applicable(r["case"])]
         nresps = run_model([net_tie.net_request(r["case"]) for r in net_cases])
         for r, resp in zip(net_cases, nresps):
             r["net_stuck"] = any(c.get("stuck") == "outOfFuel" for c in resp.get("calls", []))
@@ -983,6 +1010,8 @@ def _run(ctx, cfg, n_cases, pool, res):
         # intensified search: re-run the disagreeing programs with other schedules / both id modes / hostile EE
         extra = []
         for r, d in disagreements[:8]:
+            if r.get("net_only"):
+                continue  # a program of a known-finding shape: the monitors are not consulted on it
             for j in range(12 if tier == "quick" else 40):
                 c2 = {k: v for k, v in r["case"].items() if k not in ("ops", "answers", "terminator")}
                 c2 = copy.deepcopy(c2)
@@ -1049,6 +1078,8 @@ def _run(ctx, cfg, n_cases, pool, res):
         "traces_validated_against_impl": len([r for r in valid if not r["case"].get("imm_other")]) if ctx["model_ok"] else 0,
         "monitor_only_cross_reentrant_cases": len([r for r in valid if r["case"].get("imm_other") and not net_tie.applicable(r["case"])]),
         "net_layer_cases": len(net_cases),
+        "net_layer_any_shape_cases": len([r for r in net_cases if r.get("net_only")]),
+        "net_layer_any_shape_shapes": _shape_hist([r for r in net_cases if r.get("net_only")]),
         "net_layer_cross_reentrant_cases": len([r for r in net_cases if r["case"].get("imm_other")]),
         "net_layer_transitions_max": max([len((r.get("net1") or {}).get("trans", [])) for r in net_cases] or [0]),
         "disagreements_checked": len(disagreements),
@@ -1070,6 +1101,14 @@ def _run(ctx, cfg, n_cases, pool, res):
         res["notes"].append("%d generated programs were rejected by the validator (first: %s)" % (len(invalid), invalid[0].get("ctor_out", "")[:200]))
     if timeouts:
         res["notes"].append("%d cases timed out" % len(timeouts))
+
+
+def _shape_hist(rs):
+    h = {}
+    for r in rs:
+        for x in progs.ploop_shapes(r["case"]["prog"]):
+            h[x] = h.get(x, 0) + 1
+    return h
 
 
 def net_disagree_pred(rr, prop, proj):
